@@ -101,7 +101,14 @@ Abs(x) == IF x < 0 THEN -x ELSE x
 Tn2(code) == LET lo == Lo2(code)[(code % 2) + 1] n == R.n[(code % 2) + 1]
              IN IF lo = 0 THEN R.den ELSE IF lo = n THEN 0 ELSE R.tnum
 
+\* coarse-to-fine runs with a margin guard: see LatticeJudge
+MixedCells2 == {p \in {<<x, y>> : x \in 0..W, y \in 0..Hh} : Bits2(p) \notin {0, 15}}
+Near2(p, v) == \A a \in 1..2 : v[a] >= 16 * p[a] - R.margin16 /\ v[a] <= 16 * (p[a] + 1) + R.margin16
+Covered == \A p \in MixedCells2 : \E i \in 1..Len(R.coarse) : Near2(p, R.coarse[i])
+Decided == R.margin16 = 0 \/ Covered
+
 Holds(c) ==
+    IF ~Decided /\ c # "panic" THEN TRUE ELSE
     CASE c = "panic"    -> R.panic = ""
       [] c = "snap"     -> R.unsnap = 0
       [] c = "manifold" -> Manifold
@@ -116,5 +123,6 @@ Fails == {c \in Clauses : ~Holds(c)}
 Init == rec \in 1..Len(Recs) /\ done = FALSE
 Next == /\ ~done /\ done' = TRUE /\ UNCHANGED rec
         /\ \A c \in Fails : PrintT(<<"REJECT", R.id, 0, c>>)
+        /\ Decided \/ PrintT(<<"NOTE", R.id, "undecided">>)
 Spec == Init /\ [][Next]_<<rec, done>>
 =============================================================================
